@@ -9,6 +9,7 @@ import (
 	"buf.build/gen/go/bufbuild/protovalidate/protocolbuffers/go/buf/validate"
 	"github.com/pentops/j5/gen/j5/ext/v1/ext_j5pb"
 	"github.com/pentops/j5/gen/j5/messaging/v1/messaging_j5pb"
+	"github.com/pentops/j5/gen/j5/list/v1/list_j5pb"
 	"github.com/pentops/j5/gen/j5/schema/v1/schema_j5pb"
 	"github.com/pentops/j5/internal/zzverif/gj5s"
 	"github.com/pentops/j5/internal/zzverif/vk"
@@ -130,6 +131,21 @@ func checkEntity(t *vk.T, c *gj5s.Case) {
 			}
 			if k.Foreign != "" && (!has || ko.ForeignKey == nil) {
 				bad("foreign-marker", "key %s: foreign %q declared, compiled without foreign key", k.Field.Name, k.Foreign)
+			}
+		}
+	}
+	// the default status filter of the query block lands on State.status, naming the declared statuses
+	if st := find("t.v1." + name + "State"); st != nil {
+		if fd := st.Fields().ByName("status"); fd != nil {
+			lc := &list_j5pb.FieldConstraint{}
+			gj5s.ExtractExt(fd.Options(), list_j5pb.E_Field.TypeDescriptor(), lc)
+			var want []string
+			for _, sname := range ent.DefaultStatusFilter {
+				want = append(want, gj5s.Screaming(name)+"_STATUS_"+sname)
+			}
+			got := lc.GetEnum().GetFiltering().GetDefaultFilters()
+			if fmt.Sprint(got) != fmt.Sprint(want) {
+				bad("default-status-filter", "State.status default filters %v, declared %v", got, want)
 			}
 		}
 	}
